@@ -68,7 +68,7 @@ theorem land_pow2ceil_pred (origin n : Nat) : origin &&& (pow2ceil n - 1) = orig
   exact Nat.and_two_pow_sub_one_eq_mod origin (clog2 n)
 
 /-- An aligned origin plus one window does not cross a power-of-two boundary it starts below. -/
-theorem aligned_add_le {o p t : Nat} (hp : 0 < p) (ho : o % p = 0) (ht : p ∣ t) (hlt : o < t) : o + p ≤ t := by
+theorem aligned_add_le {o p t : Nat} (ho : o % p = 0) (ht : p ∣ t) (hlt : o < t) : o + p ≤ t := by
   obtain ⟨m, rfl⟩ := ht
   obtain ⟨k, rfl⟩ := Nat.dvd_of_mod_eq_zero ho
   have : k < m := Nat.lt_of_mul_lt_mul_left hlt
